@@ -28,14 +28,16 @@ E = {
          "boundaries and the tolerance zone are partial (known findings F12, F19). Correspondence + oracle on every run.", "7 C02"),
  "C03": ("Proved: singleton rows, composition rules (Connected = all, Disjoint = some/all); the curve-in-shape test at the heart of "
          "`B in A` is SOUND and COMPLETE for polygons -- in general position `J in A` holds iff every point of J is inside or on A "
-         "(C03_curve_in_shape_iff), lifted to Connected/Disjoint containers. That the area/orientation case analysis of simple-in-simple "
-         "on top of it decides subset of regions is not proved (partial; three defects found there were repaired: F10, F11, F22). "
+         "(C03_curve_in_shape_iff), lifted to Connected/Disjoint containers. At REGION level `B in A` is proved to decide the subset relation for strictly convex polygons "
+         "(C03_convex_in_iff: two decidable hypotheses, evaluated on generated cases; none but the tolerance one when B is a triangle); "
+         "for non-convex polygons and holes the area/orientation case analysis of simple-in-simple is not proved (partial; three defects found there were repaired: F10, F11, F22). "
          "Correspondence on all ordered pairs of a pool of shapes, touching boundaries and curved contents + exact subset oracle on every run.", "7 C03"),
  "C04": ("Theorem C04_polygon: for all polygonal shapes of all kinds and a+b <= 14 the quadrature value equals the formal trapezoid "
-         "integrals (moment_spec); Newton-Cotes exactness proved up to 19 nodes; area = shoelace; reversal negates. Curved boundaries: the coordinates of a Bezier segment are polynomials in t and the rule is "
-         "EXACT whenever (degree-1)(a+1+b) <= 3 (C04_curved_moments: area for degree <= 5, moments of order <= 2 for quadratics), with "
-         "machine-checked witnesses of inexactness beyond (cubic first moment, sextic area); elsewhere oracle at quadrature accuracy (partial). Correspondence + independent formula (sweep to the other axis) on every run.", "7 C04"),
- "C05": ("Proved: m(~A) = -m(A) edge by edge (reversal), splitting leaves the area unchanged. The inclusion-exclusion identities "
+         "integrals (moment_spec); Newton-Cotes exactness proved up to 19 nodes; area = shoelace; reversal negates. Curved boundaries: the coordinates of a Bezier segment are polynomials in t and since the repair "
+         "of F29 (found by these proofs) the rule is EXACT for every exponent pair whose node count max(4+a+b+d, d(a+b+2)) is within the 19-node table "
+         "(C04_curved_moments: cubics to order 4, quadratics to order 7, areas to degree 9); the unrepaired node count is refuted on a cubic first moment. "
+         "The library's curved moments are compared exactly with the model's on every run. Correspondence + independent formula (sweep to the other axis) on every run.", "7 C04"),
+ "C05": ("Proved: m(~A) = -m(A) edge by edge (reversal), splitting leaves the area and every exactly computed boundary integral unchanged (straight and curved segments of degree <= 6). The inclusion-exclusion identities "
          "themselves rest on the recombination premise of C01 (partial) and are checked exactly on the implementation's results for "
          "every generated pair and nested expression (oracle = the identities, all moments of order <= 2).", "7 C05"),
  "C06": ("Proved for all inputs: every constructed curve is a closed chain, kind tables (~Simple Simple, ~Connected Disjoint, "
@@ -73,7 +75,7 @@ E = {
          "crossings and parity: oracle only (partial).", "7 C14"),
  "C15": ("Proved for straight segments: pieces retrace, junctions lie at the split parameters, no zero-length piece, area and winding "
          "number unchanged, closedness preserved, split is TOTAL on valid requests (repeated / nearly equal parameters merged), clean "
-         "idempotent and complete. Curved pieces (degree reduction): oracle only. F15/F15c/F25 repaired; known finding F15b.", "7 C15"),
+         "idempotent and complete. Curved segments of degree <= 6: pieces and exactly cleaned pieces retrace positions and velocities, every split keeps the area and every boundary integral the library computes (C15_curved_*); the library's inexact least-squares degree reduction (<= 1e-9) is outside the model (set aside, judged at the property's tolerance). F15/F15c/F25/F29 repaired; known finding F15b.", "7 C15"),
  "C16": ("Proved over Q: square/triangle/polygon/regular_polygon(4) vertex lists, positive area, closed-form areas; circle arcs lie in "
          "the band r^2 <= |B(t)-c|^2 <= r^2(1+h^4/(4(1+h^2))) (polynomial identity). Validation matrix and float trigonometry by "
          "correspondence.", "7 C16"),
